@@ -771,15 +771,39 @@ fn decode_glyph(
             return Err(format!("peak tuple has {} axes", peak.len()));
         }
         let (s, e) = (t.intermediate_start(), t.intermediate_end());
-        let eff = (0..axis_count)
-            .map(|i| {
-                let p = peak.get(i).unwrap().to_bits();
-                match (&s, &e) {
-                    (Some(s), Some(e)) => (s.get(i).unwrap().to_bits(), p, e.get(i).unwrap().to_bits()),
-                    _ => (p.min(0), p, p.max(0)),
-                }
-            })
-            .collect();
+        // every answer of the reader is checked before use: a missing or short tuple is a finding about
+        // the library, never a reason for the harness to stop
+        if s.is_some() != e.is_some() {
+            return Err(format!(
+                "intermediate {} tuple missing: start {}, end {}",
+                if s.is_none() { "start" } else { "end" },
+                s.as_ref().map_or("absent".to_string(), |t| format!("{} axes", t.len())),
+                e.as_ref().map_or("absent".to_string(), |t| format!("{} axes", t.len()))
+            ));
+        }
+        if let (Some(s), Some(e)) = (&s, &e) {
+            if s.len() != axis_count || e.len() != axis_count {
+                return Err(format!(
+                    "intermediate {} tuple short: start has {} axes, end has {} axes, the table has {axis_count}",
+                    if s.len() != axis_count { "start" } else { "end" },
+                    s.len(),
+                    e.len()
+                ));
+            }
+        }
+        let mut eff = Vec::with_capacity(axis_count);
+        for i in 0..axis_count {
+            let Some(p) = peak.get(i).map(|v| v.to_bits()) else {
+                return Err(format!("peak tuple short: axis {i} unreadable"));
+            };
+            match (&s, &e) {
+                (Some(s), Some(e)) => match (s.get(i), e.get(i)) {
+                    (Some(a), Some(b)) => eff.push((a.to_bits(), p, b.to_bits())),
+                    _ => return Err(format!("intermediate tuple short: axis {i} unreadable")),
+                },
+                _ => eff.push((p.min(0), p, p.max(0))),
+            }
+        }
         let mut explicit = vec![None; npoints];
         let mut count = 0usize;
         for d in t.deltas() {
@@ -884,7 +908,13 @@ fn check_gvar(run: &Run, family: &str, glyphs: &[GlyphSpec], axis_count: u16, l:
             l.trans += 1;
             let dec = match decode_glyph(&gvar, gid as u32, g.coords.len() + 4, axis_count as usize) {
                 Ok(d) => d,
-                Err(e) => return Some(("glyph variation data unreadable".into(), format!("glyph {gid}: {e}"))),
+                Err(e) => {
+                    let id = match e.split(':').next() {
+                        Some(head) if head.starts_with("intermediate") || head.starts_with("peak tuple") => head.to_string(),
+                        _ => "glyph variation data unreadable".to_string(),
+                    };
+                    return Some((id, format!("glyph {gid}: {e}")));
+                }
             };
             if let Some((id, detail)) = compare_glyph(g, &dec) {
                 return Some((id, format!("glyph {gid}: {detail}")));
@@ -1218,14 +1248,20 @@ fn offsets_glyphs(n: usize) -> Vec<GlyphSpec> {
 fn offsets_family(run: &Run) {
     // find the first point count that needs long offsets by measuring, not by formula
     let is_long = |n: usize| -> bool {
-        build_gvar(&offsets_glyphs(n), 1)
-            .ok()
-            .and_then(|b| rgvar::Gvar::read(FontData::new(&b)).ok().map(|g| g.flags().contains(rgvar::GvarFlags::LONG_OFFSETS)))
-            .unwrap_or(true)
+        guard(|| {
+            build_gvar(&offsets_glyphs(n), 1)
+                .ok()
+                .and_then(|b| rgvar::Gvar::read(FontData::new(&b)).ok().map(|g| g.flags().contains(rgvar::GvarFlags::LONG_OFFSETS)))
+        })
+        .ok()
+        .flatten()
+        .unwrap_or(true)
     };
     let (mut lo, mut hi) = (100usize, 6000usize);
     if is_long(lo) || !is_long(hi) {
-        run.machinery_error("b3: sweep bracket does not straddle the offset switch");
+        if run.violations() == 0 {
+            run.machinery_error("b3: sweep bracket does not straddle the offset switch");
+        }
         return;
     }
     while lo + 1 < hi {
@@ -1386,6 +1422,17 @@ fn font_json(f: &FontSpec, loc: &[i16], style: &str) -> Value {
 
 /// Draw glyph 0 at every location in `locs` and compare with the exact reference.
 fn check_font(run: &Run, f: &FontSpec, locs: &[Vec<i16>], l: &mut Local) {
+    // safety net: whatever the library answers, a case ends in a verdict, not in a harness stop
+    if let Err(p) = guard(|| check_font_inner(run, f, locs, l)) {
+        run.violation(
+            &format!("c: panic while reading / drawing a built font: {} in {}", p.kind(), p.site()),
+            &format!("{} ({}:{})", p.message, p.file, p.line),
+            font_json(f, &[], "panic"),
+        );
+    }
+}
+
+fn check_font_inner(run: &Run, f: &FontSpec, locs: &[Vec<i16>], l: &mut Local) {
     let bytes = match guard(|| build_var_font(f)) {
         Ok(Ok(b)) => b,
         Ok(Err(e)) => {
@@ -1406,8 +1453,17 @@ fn check_font(run: &Run, f: &FontSpec, locs: &[Vec<i16>], l: &mut Local) {
     all.extend([(0, 0), (f.advance as i64, 0), (0, 0), (0, 0)]);
     let n = g.coords.len();
     // per tuple: exact inferred deltas from what the table carries (verified against the input in (b))
-    let gv = build_gvar(std::slice::from_ref(g), f.axis_count).unwrap();
-    let rg = rgvar::Gvar::read(FontData::new(&gv)).unwrap();
+    let Ok(gv) = build_gvar(std::slice::from_ref(g), f.axis_count) else {
+        run.violation("c: gvar cannot be built a second time", "", font_json(f, &[], "build"));
+        return;
+    };
+    let rg = match rgvar::Gvar::read(FontData::new(&gv)) {
+        Ok(g) => g,
+        Err(e) => {
+            run.violation("c: compiled gvar does not parse", &format!("{e}"), font_json(f, &[], "parse"));
+            return;
+        }
+    };
     let dec = match decode_glyph(&rg, 0, n + 4, f.axis_count as usize) {
         Ok(d) => d,
         Err(e) => {
@@ -1934,13 +1990,15 @@ fn sparse_run_family(run: &Run) {
         .map(|f| {
             let mut l = Local::new();
             // the point of the family is the sparse encoding: count how many tuples really are sparse
-            if let Ok(gv) = build_gvar(std::slice::from_ref(&f.glyph), 1) {
-                if let Ok(rg) = rgvar::Gvar::read(FontData::new(&gv)) {
-                    if let Ok(dec) = decode_glyph(&rg, 0, n + 4, 1) {
-                        sparse_seen.fetch_add(dec.iter().filter(|d| !d.all_points).count() as u64, std::sync::atomic::Ordering::Relaxed);
+            let _ = guard(|| {
+                if let Ok(gv) = build_gvar(std::slice::from_ref(&f.glyph), 1) {
+                    if let Ok(rg) = rgvar::Gvar::read(FontData::new(&gv)) {
+                        if let Ok(dec) = decode_glyph(&rg, 0, n + 4, 1) {
+                            sparse_seen.fetch_add(dec.iter().filter(|d| !d.all_points).count() as u64, std::sync::atomic::Ordering::Relaxed);
+                        }
                     }
                 }
-            }
+            });
             let regions: Vec<Region> = f.glyph.tuples.iter().map(|t| t.region.clone()).collect();
             let locs: Vec<Vec<i16>> = axis_locations(&regions, 0).iter().map(|x| vec![*x]).collect();
             check_font(run, f, &locs, &mut l);
@@ -1952,7 +2010,7 @@ fn sparse_run_family(run: &Run) {
     }
     let sparse = sparse_seen.load(std::sync::atomic::Ordering::Relaxed);
     run.count("c3.tuples_stored_sparse", sparse);
-    if sparse == 0 {
+    if sparse == 0 && run.violations() == 0 {
         run.machinery_error("c3: no tuple of the zero-run family was stored with explicit point numbers");
     }
 }
@@ -2270,6 +2328,16 @@ impl CRef<'_> {
 }
 
 fn check_cfont(run: &Run, f: &CFont, draw: &[u32], locs: &[Vec<i16>], reuse: bool, l: &mut Local) {
+    if let Err(p) = guard(|| check_cfont_inner(run, f, draw, locs, reuse, l)) {
+        run.violation(
+            &format!("c2: panic while reading / drawing a built font: {} in {}", p.kind(), p.site()),
+            &format!("{} ({}:{})", p.message, p.file, p.line),
+            cfont_json(f, 0, &[], "panic"),
+        );
+    }
+}
+
+fn check_cfont_inner(run: &Run, f: &CFont, draw: &[u32], locs: &[Vec<i16>], reuse: bool, l: &mut Local) {
     let bytes = match guard(|| build_cfont(f)) {
         Ok(Ok(b)) => b,
         Ok(Err(e)) => {
@@ -2289,8 +2357,17 @@ fn check_cfont(run: &Run, f: &CFont, draw: &[u32], locs: &[Vec<i16>], reuse: boo
             return;
         }
     }
-    let gv = build_gvar(&specs, f.axis_count).unwrap();
-    let rg = rgvar::Gvar::read(FontData::new(&gv)).unwrap();
+    let Ok(gv) = build_gvar(&specs, f.axis_count) else {
+        run.violation("c2: gvar cannot be built a second time", "", cfont_json(f, 0, &[], "build"));
+        return;
+    };
+    let rg = match rgvar::Gvar::read(FontData::new(&gv)) {
+        Ok(g) => g,
+        Err(e) => {
+            run.violation("c2: compiled gvar does not parse", &format!("{e}"), cfont_json(f, 0, &[], "parse"));
+            return;
+        }
+    };
     let mut dec = vec![];
     for (gid, s) in specs.iter().enumerate() {
         match decode_glyph(&rg, gid as u32, s.coords.len() + 4, f.axis_count as usize) {
@@ -2721,6 +2798,19 @@ fn composite_family(run: &Run) {
 
 // ---------------------------------------------------------------------------
 
+/// Safety net around a whole family: every per-case call into the library is already guarded, but if
+/// anything still panics (also inside worker threads) the run must end with a verdict (exit 1), never
+/// with a harness stop.
+fn family(run: &Run, name: &str, f: impl FnOnce()) {
+    if let Err(p) = guard(f) {
+        run.violation(
+            &format!("panic outside the per-case guards (family {name}): {} in {}", p.kind(), p.site()),
+            &format!("{} ({}:{})", p.message, p.file, p.line),
+            json!({"kind": "family", "family": name}),
+        );
+    }
+}
+
 fn body(run: &Run, replay: Option<&Value>) {
     run.rule("(a) a case is (contour coordinates, deltas, tolerance) given to iup_delta_optimize; non-trivial = some but not all deltas marked optional; (b) a case is one list of glyph variation inputs compiled to gvar; observation = read-back regions + explicit deltas + packing; non-trivial = a non-zero delta present; (c) a case is (font, location, path style); observation = drawn points; non-trivial = at least one active region");
     run.assume("oracle: the OpenType text for inferred deltas and tuple scalars, implemented in exact i128 rationals");
@@ -2788,14 +2878,14 @@ fn body(run: &Run, replay: Option<&Value>) {
             return;
         }
     }
-    optimiser_families(run);
-    half_unit_family(run);
-    pipeline_family(run);
-    structured_family(run);
-    offsets_family(run);
-    tent_family(run);
-    application_family(run);
-    sparse_run_family(run);
-    composite_family(run);
-    nested_family(run);
+    family(run, "optimiser_families", || optimiser_families(run));
+    family(run, "half_unit_family", || half_unit_family(run));
+    family(run, "pipeline_family", || pipeline_family(run));
+    family(run, "structured_family", || structured_family(run));
+    family(run, "offsets_family", || offsets_family(run));
+    family(run, "tent_family", || tent_family(run));
+    family(run, "application_family", || application_family(run));
+    family(run, "sparse_run_family", || sparse_run_family(run));
+    family(run, "composite_family", || composite_family(run));
+    family(run, "nested_family", || nested_family(run));
 }
